@@ -27,6 +27,9 @@ theorem renderNode_raw5 (rc : RCfg) (hes : rc.core.escSpace = false) (hhw : rc.c
   cases b with
   | old b => rw [rawNode5, rawHtml5, renderNode_raw4 rc hes hhw hea hx]
   | fence fc n info lines => exact renderNode_fence5 rc hes ph next fc n info lines
+  | icode lines =>
+    rw [rawNode5, renderNode]
+    simp [enter, leave, handled, skipsChildren, renderNodes, rawHtml5, List.flatMap_map]
 
 theorem renderNodes_raw5 (rc : RCfg) (hes : rc.core.escSpace = false) (hhw : rc.core.hardWraps = false)
     (hea : rc.core.ea = 0) (hx : rc.core.xhtml = true) (ph : Bool) (bs : List Raw5) :
@@ -51,6 +54,8 @@ theorem renderPanicsNode_raw5 (rc : RCfg) (b : Raw5) (hlev : ∀ level l, b = .o
     exact renderPanicsNode_raw4 rc b (fun level l he => hlev level l (by rw [he]))
   | fence fc n info lines =>
     simp [rawNode5, renderPanicsNode, nodePanic, renderPanicsNodes, handled_fenced5, skipsChildren]
+  | icode lines =>
+    simp [rawNode5, renderPanicsNode, nodePanic, renderPanicsNodes, handled, skipsChildren]
 
 theorem renderPanicsNodes_raw5 (rc : RCfg) (bs : List Raw5)
     (hlev : ∀ b ∈ bs, ∀ level l, b = .old (.atx level l) → level ≤ 6) :
